@@ -14,12 +14,14 @@
 #include <utility>
 #include <sys/uio.h>
 
-#include <tbox/base/cabinet.hpp>
+#include <set>
+#include <unordered_set>
 #include <tbox/base/object_pool.hpp>
 // ref_count lives in a protected struct behind a private pointer; it is printed on the
-// model-internal `M` line only.
+// model-internal `M` line only.  Cabinet::last_id_ is written by the test op `cab jump` (ids near 2^64).
 #define private public
 #define protected public
+#include <tbox/base/cabinet.hpp>
 #include <tbox/util/fd.h>
 #include <tbox/base/lifetime_tag.hpp>      // d_ / Detail are private: read for labels and the M line only
 #undef private
@@ -33,13 +35,25 @@ using tbox::cabinet::Token;
 using tbox::util::Fd;
 
 static bool num(const std::string &w, uint64_t bound, uint64_t &v) { return vh::to_u64(w, v) && w.size() < 15 && v < bound; }
+// any size_t value: decimal digits only, at most 20, no overflow
+static bool num64(const std::string &w, uint64_t &v) {
+    if (w.empty() || w.size() > 20) return false;
+    v = 0;
+    for (char c : w) {
+        if (c < '0' || c > '9') return false;
+        uint64_t d = (uint64_t)(c - '0');
+        if (v > (UINT64_MAX - d) / 10) return false;
+        v = v * 10 + d;
+    }
+    return true;
+}
 static std::string comma(const std::vector<std::string> &v) {
     if (v.empty()) return "-";
     std::string s; for (size_t i = 0; i < v.size(); ++i) { if (i) s += ","; s += v[i]; } return s;
 }
 
 // ---------------------------------------------------------------- cabinet
-static const uint64_t kMaxObj = 1000, kMaxRaw = 4000000000ull;
+static const uint64_t kMaxObj = 1000, kMaxBulk = 400000;
 static int g_objs[kMaxObj];                       // object number o <-> &g_objs[o]; 0 <-> nullptr
 static std::unique_ptr<Cabinet<int>> g_cab;
 static std::vector<Token> g_toks;
@@ -68,8 +82,55 @@ static bool cab_line(const std::vector<std::string> &w) {
         }
     } else if (op == "at" && w.size() == 3 && num(w[2], g_toks.size(), a)) {
         std::cout << "P at=" << objn(c.at(g_toks[a])) << "\n";
-    } else if (op == "atraw" && w.size() == 4 && num(w[2], kMaxRaw, a) && num(w[3], kMaxRaw, b)) {
+    } else if (op == "atraw" && w.size() == 4 && num64(w[2], a) && num64(w[3], b)) {
         std::cout << "M at=" << objn(c[Token(a, b)]) << "\n";
+    } else if (op == "jump" && w.size() == 3 && num64(w[2], a) && a >= c.last_id_) {
+        c.last_id_ = a;            // test access: as if a - last_id_ entries had been allocated and freed
+        std::cout << "P ok\n";
+    } else if (op == "bulk" && w.size() >= 3) {
+        const std::string &sub = w[2];
+        uint64_t n = 0, m = 0, r = 0;
+        auto objnum = [](int *p) -> uint64_t { return !p ? 0 : (p < g_objs || p >= g_objs + kMaxObj) ? kMaxObj : (uint64_t)(p - g_objs); };
+        if (sub == "alloc" && w.size() == 5 && num(w[3], kMaxBulk + 1, n) && num(w[4], kMaxObj, a) && g_toks.size() + n <= 2 * kMaxBulk) {
+            const size_t first = g_toks.size(); uint64_t nulls = 0;
+            for (uint64_t i = 0; i < n; ++i) {
+                Token t;
+                try { t = c.alloc(objp(1 + (a + i) % 999)); } catch (const std::out_of_range &) { t = Token(); }
+                if (t.id() == 0) ++nulls;
+                g_toks.push_back(t);
+            }
+            Token f = first < g_toks.size() ? g_toks[first] : Token(), l = g_toks.empty() ? Token() : g_toks.back();
+            std::cout << "P bulk alloc n=" << n << " null=" << nulls << " size=" << c.size() << "\nM bulk tok first=" << f.id() << "." << f.pos()
+                      << " last=" << l.id() << "." << l.pos() << "\n";
+        } else if (sub == "at" && w.size() == 5 && num(w[3], 2 * kMaxBulk + 1, a) && num(w[4], 2 * kMaxBulk + 1, n) && a + n <= g_toks.size()) {
+            uint64_t res = 0, sum = 0; int64_t firstnull = -1;
+            for (uint64_t i = 0; i < n; ++i) {
+                uint64_t x = objnum(c.at(g_toks[a + i]));
+                if (x) ++res; else if (firstnull < 0) firstnull = (int64_t)i;
+                sum = (sum + (i + 1) * x) % 1000000007ull;
+            }
+            std::cout << "P bulk at resolved=" << res << " firstnull=" << (firstnull < 0 ? std::string("-") : std::to_string(firstnull)) << " sum=" << sum << "\n";
+        } else if (sub == "free" && w.size() == 8 && num(w[3], 2 * kMaxBulk + 1, a) && num(w[4], 2 * kMaxBulk + 1, n) && num(w[5], 100000, m)
+                   && num(w[6], 100000, r) && a + n <= g_toks.size() && m != 0 && r < m && (w[7] == "up" || w[7] == "down")) {
+            std::vector<uint64_t> idx;
+            for (uint64_t i = 0; i < n; ++i) if (i % m == r) idx.push_back(i);
+            if (w[7] == "down") std::reverse(idx.begin(), idx.end());
+            uint64_t freed = 0, sum = 0, j = 0;
+            for (uint64_t i : idx) {
+                uint64_t x = objnum(c.free(g_toks[a + i]));
+                if (x) ++freed;
+                sum = (sum + (j + 1) * x) % 1000000007ull; ++j;
+            }
+            std::cout << "P bulk free freed=" << freed << " sum=" << sum << " size=" << c.size() << "\n";
+        } else if (sub == "distinct" && w.size() == 3) {
+            // compared on the values the accessors return (not with Token's own operators)
+            std::vector<std::pair<uint64_t, uint64_t>> v;
+            for (auto &t : g_toks) if (t.id() != 0) v.emplace_back(t.id(), t.pos());
+            std::sort(v.begin(), v.end());
+            uint64_t dups = 0;
+            for (size_t i = 1; i < v.size(); ++i) if (v[i] == v[i - 1]) ++dups;
+            std::cout << "P bulk distinct tokens=" << v.size() << " dups=" << dups << "\n";
+        } else return false;
     } else if (op == "upd" && w.size() == 4 && num(w[2], g_toks.size(), a) && num(w[3], kMaxObj, b)) {
         std::cout << "P upd=" << (c.update(g_toks[a], objp(b)) ? 1 : 0) << "\n";
     } else if (op == "free" && w.size() == 3 && num(w[2], g_toks.size(), a)) {
@@ -276,6 +337,75 @@ static bool pool_line(const std::vector<std::string> &w) {
         pool_status();
     } else if (op == "stat" && w.size() == 2) {
         pool_status();
+    } else if (op == "bulk" && w.size() == 5 && num(w[2], kMaxBulk + 1, h) && (w[3] == "max" || num(w[3], kMaxBulk + 1, v))) {
+        // a pool of its own: n objects alive at once, all freed in allocation order, then m more from the parked blocks
+        uint64_t n = h, m = 0;
+        if (!num(w[4], kMaxBulk + 1, m) || m > n) return false;
+        std::unique_ptr<tbox::ObjectPool<Probe>> pool(w[3] == "max" ? new tbox::ObjectPool<Probe>() : new tbox::ObjectPool<Probe>(v));
+        const uint64_t c0 = g_ctor, d0 = g_dtor; const bool alias0 = g_alias; g_alias = false;
+        auto line = [&](const char *tag, const std::vector<Probe *> &live, uint64_t base) {
+            std::set<const void *> addr; uint64_t bad = 0;
+            for (size_t i = 0; i < live.size(); ++i) {
+                addr.insert(live[i]);
+                if (live[i]->v != base + i || live[i]->pad[1] != ~(base + i)) ++bad;     // overwritten by another object
+            }
+            auto st = pool->getStat();
+            std::cout << "P poolbulk " << tag << " live=" << live.size() << " ctor=" << (g_ctor - c0) << " dtor=" << (g_dtor - d0) << " stat="
+                      << st.total_alloc_times << "/" << st.total_free_times << "/" << st.peak_alloc_number << "/" << st.peak_free_number
+                      << " alias=" << ((live.size() - addr.size()) + bad + (g_alias ? 1 : 0)) << "\n";
+        };
+        std::vector<Probe *> a, b, none;
+        for (uint64_t i = 0; i < n; ++i) a.push_back(pool->alloc(i, (const std::vector<PNode> *)nullptr));
+        line("a", a, 0);
+        for (auto p : a) pool->free(p);
+        line("f", none, 0);
+        for (uint64_t i = 0; i < m; ++i) b.push_back(pool->alloc(1000000 + i, (const std::vector<PNode> *)nullptr));
+        line("b", b, 1000000);
+        for (auto p : b) pool->free(p);
+        line("e", none, 0);
+        pool.reset();
+        g_alias = alias0 || g_alias;
+        g_ctor = c0; g_dtor = d0;         // the counters of the status line belong to the main pool
+    } else return false;
+    return true;
+}
+
+// ---------------------------------------------------------------- cabinet::Token
+static std::string tokstr(const Token &t) {
+    std::ostringstream os;
+    os << "id=" << t.id() << " pos=" << t.pos() << " null=" << (t.isNull() ? 1 : 0) << " bool=" << ((bool)t ? 1 : 0);
+    if (std::hash<Token>()(t) != t.hash()) os << " stdhash!";
+    return os.str();
+}
+// the hash VALUE is model-internal (any function compatible with == would do)
+static std::string hashstr(const Token &t) { return "M hash=" + std::to_string(t.hash()); }
+static bool tok_line(const std::vector<std::string> &w) {
+    uint64_t a = 0, b = 0, c = 0, d = 0;
+    const std::string &op = w[1];
+    if (op == "def" && w.size() == 2) {
+        Token t;
+        std::cout << "P tok " << tokstr(t) << "\n" << hashstr(t) << "\n";
+    } else if (op == "mk" && w.size() == 4 && num64(w[2], a) && num64(w[3], b)) {
+        Token t(a, b); Token u(t); Token v; v = u;
+        bool copy = v == t && !(v != t) && v.id() == t.id() && v.pos() == t.pos() && u.equal(t);
+        std::cout << "P tok " << tokstr(t) << " copy=" << (copy ? 1 : 0) << "\n" << hashstr(t) << "\n";
+    } else if (op == "reset" && w.size() == 4 && num64(w[2], a) && num64(w[3], b)) {
+        Token t(a, b); t.reset();
+        std::cout << "P tok " << tokstr(t) << "\n" << hashstr(t) << "\n";
+    } else if (op == "cmp" && w.size() == 6 && num64(w[2], a) && num64(w[3], b) && num64(w[4], c) && num64(w[5], d)) {
+        Token x(a, b), y(c, d);
+        std::cout << "P cmp eq=" << (x == y) << " ne=" << (x != y) << " lt=" << (x < y) << " le=" << (x <= y) << " gt=" << (x > y)
+                  << " ge=" << (x >= y) << " hashok=" << ((!(x == y) || x.hash() == y.hash()) ? 1 : 0)
+                  << ((x.equal(y) != (x == y) || x.less(y) != (x < y)) ? " fn!" : "") << "\nM heq=" << (x.hash() == y.hash()) << "\n";
+    } else if (op == "set" && w.size() <= 82 && w.size() % 2 == 0) {
+        std::set<Token> s; std::unordered_set<Token> us;
+        for (size_t i = 2; i + 1 < w.size(); i += 2) {
+            if (!num64(w[i], a) || !num64(w[i + 1], b)) return false;
+            s.insert(Token(a, b)); us.insert(Token(a, b));
+        }
+        std::vector<std::string> ord;
+        for (auto &t : s) ord.push_back(std::to_string(t.id()) + "." + std::to_string(t.pos()));
+        std::cout << "P set n=" << s.size() << " un=" << us.size() << " order=" << comma(ord) << "\n";
     } else return false;
     return true;
 }
@@ -306,7 +436,7 @@ static void fd_status() {
     for (uint64_t i = 0; i < kFdSlots; ++i) {
         if (i) { g += ","; ref += ","; }
         int fd = g_fd[i]->get();
-        if (fd == -1) g += "-1";
+        if (fd < 0) g += std::to_string(fd);
         else { auto it = g_fd2res.find(fd); g += (it == g_fd2res.end() ? std::string("?") : std::to_string(it->second)); }
         nl += g_fd[i]->isNull() ? "1" : "0";
         ref += g_fd[i]->detail_ ? std::to_string(g_fd[i]->detail_->ref_count) : std::string("-");
@@ -321,12 +451,18 @@ static bool fd_line(const std::vector<std::string> &w) {
     const std::string &op = w[1];
     if (op == "new" && w.size() == 3 && num(w[2], kFdSlots, a)) {
         g_fd[a].reset(); g_fd[a].reset(new Fd());
-    } else if (op == "open" && w.size() == 4 && num(w[2], kFdSlots, a) && (w[3] == "fn" || w[3] == "raw") && g_nres < 200) {
+    } else if (op == "openneg" && w.size() == 5 && num(w[2], kFdSlots, a) && num(w[3], 3, b) && (w[4] == "fn" || w[4] == "raw")) {
+        // what a failed open()/socket() returned: a record is created, nothing may ever be closed for it
+        g_fd[a].reset();
+        if (w[4] == "fn") g_fd[a].reset(new Fd(-(int)(b + 1), close_fn)); else g_fd[a].reset(new Fd(-(int)(b + 1)));
+    } else if (op == "open" && w.size() == 4 && num(w[2], kFdSlots, a) && (w[3] == "fn" || w[3] == "raw" || w[3] == "nullfn") && g_nres < 200) {
         int fd = dup(g_pipe[0]);                  // before the old object dies: no number reuse inside one op
         if (fd < 0) { perror("dup"); abort(); }
         g_fd2res[fd] = g_nres++;
         g_fd[a].reset();
-        if (w[3] == "fn") g_fd[a].reset(new Fd(fd, close_fn)); else g_fd[a].reset(new Fd(fd));
+        if (w[3] == "fn") g_fd[a].reset(new Fd(fd, close_fn));
+        else if (w[3] == "nullfn") g_fd[a].reset(new Fd(fd, Fd::CloseFunc()));       // an empty std::function: plain ::close
+        else g_fd[a].reset(new Fd(fd));
     } else if (op == "cpc" && w.size() == 4 && num(w[2], kFdSlots, a) && num(w[3], kFdSlots, b) && a != b) {
         g_fd[a].reset(); g_fd[a].reset(new Fd(*g_fd[b]));
     } else if (op == "mvc" && w.size() == 4 && num(w[2], kFdSlots, a) && num(w[3], kFdSlots, b) && a != b) {
@@ -445,6 +581,7 @@ int main() {
             else if (w[0] == "pool") ok = pool_line(w);
             else if (w[0] == "fd") ok = fd_line(w);
             else if (w[0] == "lt") ok = lt_line(w);
+            else if (w[0] == "tok") ok = tok_line(w);
         }
         if (!ok) std::cout << "bad-op\n";
     }
